@@ -52,8 +52,11 @@ func (s *synchronizer) sync(_ context.Context, res Response) (Response, bool, er
 
 	s.cycle.counter++
 
-	if !res.Ack {
-		s.cycle.res.Ack = false
+	// A command succeeds when it succeeded for any channel, wherever that channel lives:
+	// this mirrors the storage engine, which reports success of Next, Prev, the seeks and
+	// Valid when at least one of its channel iterators succeeded.
+	if res.Ack {
+		s.cycle.res.Ack = true
 	}
 	if res.Error != nil && s.cycle.res.Error == nil {
 		s.cycle.res.Error = res.Error
